@@ -98,13 +98,17 @@ ImmSweep == IF Small THEN {Line("add", <<dd, v>>) : dd \in {EAX, Rg("r8", 3), M4
         \cup {Line("mov", <<Mem(sz, "", 3, -1, 1, d, ""), v>>) : sz \in {8, 16, 32}, d \in {Z4, D(127), D(128)}, v \in ImmAll}
         \cup {Line(m, <<v, r>>) : m \in {"out", "enter"}, v \in ImmAll, r \in {EAX, Rg("r8", 0), I1, Imm(FALSE, <<31,0,0,0>>)}}
 \* ---------------------------------------------------------------- plausibility (a coarse operand-class check, not validity)
-\* C19 spells only lines whose operand classes the mnemonic family can take; C02 sees all lines.
+\* C19 spells only lines whose operand classes the mnemonic family can take; C02 sees all lines and uses the reason
+\* to name the class of an invalid line that was accepted.  State variable plaus = PlausWhy(ins).
 Gprs == {"r8", "r16", "r32"}
+XmmOnly == {"movaps","movups","movss","movsd","addps","addss","mulps","xorps","andps","cvtsi2sd","sqrtps","movdqa","movdqu","ucomiss","pshufd","shufps"}
 Fam2Imm8 == Shifts \cup {"shld", "shrd", "in", "out", "int", "bt", "bts", "btr", "btc", "enter"} \cup ThreeSimd
 RegClassesOf(ops) == {ops[j].c : j \in {j \in 1..Len(ops) : ops[j].k = "reg"}}
 AllSizes(ops) == RegSizes(ops) \cup MemSizes(ops)
 MixedSizeOK == {"movzx","movsx","shld","shrd","in","out","enter","lds","bound","lea"} \cup Shifts
 IsImm(o) == o.k = "imm" /\ o.sym = ""
+RegIn(o, C) == o.k = "reg" /\ o.c \in C
+StN(o, ns) == o.k = "reg" /\ o.c = "st" /\ o.n \in ns
 U8(o) == ~o.neg /\ Low(o.v, 8) = o.v
 U16(o) == ~o.neg /\ Low(o.v, 16) = o.v
 \* immediates must be in the range the instruction can hold (out-of-range values are C02's subject)
@@ -113,41 +117,66 @@ ImmOK(m, ops) == \A j \in 1..Len(ops) : IsImm(ops[j]) =>
      [] m \in {"ret", "retf"} \/ (m = "enter" /\ j = 1) -> U16(ops[j])
      [] m \in Fam2Imm8 -> U8(ops[j])
      [] OTHER -> TRUE
-Plausible(l) ==
+\* first reason why a line cannot be an instruction of its mnemonic's family ("" = plausible)
+PlausWhy(l) ==
    LET cs == RegClassesOf(l.ops)  m == l.mn  f == Fam(l.mn)  n == Len(l.ops)
        K(j) == l.ops[j].k
-       nmem == Cardinality({j \in 1..n : K(j) = "mem"}) IN
-   /\ n \in Ar(m) /\ nmem <= 1 /\ ImmOK(m, l.ops)
-   /\ (n >= 1 /\ m \notin {"push", "ret", "retf", "int", "out", "enter"} \cup OneBr => K(1) # "imm")
-   /\ CASE f = "int" ->
-             /\ cs \subseteq (Gprs \cup (IF m \in {"mov","push","pop"} THEN {"sreg"} ELSE {}) \cup (IF m = "mov" THEN {"cr","dr"} ELSE {}))
-             /\ MemSizes(l.ops) \subseteq {8, 16, 32}
-             /\ (m \in MixedSizeOK \/ Cardinality(AllSizes(l.ops)) <= 1)
-             /\ (cs \cap {"cr", "dr", "sreg"} # {} => n = 1 \/ (K(1) = "reg" /\ K(2) = "reg" /\ AllSizes(l.ops) \subseteq {IF "sreg" \in cs THEN 16 ELSE 32, 32}))
-             /\ (m \in Shifts \cup {"shld", "shrd"} /\ n >= 2 => IsImm(l.ops[n]) \/ l.ops[n] = Rg("r8", 1))
-             /\ (m \in {"lds", "lgdt", "lidt", "bound", "lea"} => K(n) = "mem")
-             /\ (m \in {"imul", "bsf", "bsr", "bt", "bts", "btr", "btc", "cmove", "cmovg", "cmovb", "lea", "movzx", "movsx", "lds", "bound", "xchg", "xadd", "cmpxchg"}
-                   => "r8" \notin (IF m \in {"movzx", "movsx", "xchg", "xadd", "cmpxchg"} THEN {} ELSE cs) /\ (n = 1 \/ K(IF m \in {"bt","bts","btr","btc","xadd","cmpxchg","xchg"} THEN 2 ELSE 1) \in {"reg"} \cup (IF m \in {"bt","bts","btr","btc"} THEN {"imm"} ELSE {})))
-             /\ (m \in {"movzx", "movsx"} => K(1) = "reg" /\ K(2) # "imm")
-             /\ (m \in {"sete", "setne", "setb", "setg"} => AllSizes(l.ops) \subseteq {8})
-             /\ (m \in {"push", "pop", "bswap", "lgdt", "lidt", "int"} => "r8" \notin cs /\ MemSizes(l.ops) \subseteq {16, 32})
-        [] f = "x87" -> /\ cs \subseteq {"st"} \cup (IF m = "fnstsw" THEN {"r16"} ELSE {}) /\ MemSizes(l.ops) \subseteq {16, 32, 64, 80}
-                        /\ \A j \in 1..n : K(j) # "imm"
-                        /\ (nmem = 1 => n = 1 /\ m \notin X87Pop \cup {"fxch", "fucom", "ffree"})
-                        /\ (m \in {"fild", "fist", "fistp", "fiadd", "fldcw", "fnstcw"} => nmem = 1)
-        [] f = "simd" -> /\ cs \subseteq {"mm", "xmm", "r32"} /\ MemSizes(l.ops) \subseteq {32, 64, 128} /\ Cardinality(cs \cap {"mm", "xmm"}) = 1
-                         /\ (n = 3 => IsImm(l.ops[3])) /\ (n >= 2 => K(2) # "imm")
-        [] OTHER -> cs \subseteq {"r32"} /\ MemSizes(l.ops) \subseteq {32}
+       nmem == Cardinality({j \in 1..n : K(j) = "mem"})
+       First(checks) == LET bad == {j \in 1..Len(checks) : ~checks[j][2]} IN
+                        IF bad = {} THEN "" ELSE checks[CHOOSE j \in bad : \A q \in bad : j <= q][1]
+       general == First(<<
+          <<"arity", n \in Ar(m)>>,
+          <<"two_memory_operands", nmem <= 1>>,
+          <<"immediate_destination", n >= 1 /\ m \notin {"push", "ret", "retf", "int", "out", "enter"} \cup OneBr => K(1) # "imm">> >>)
+       byfam == CASE f = "int" -> First(<<
+          <<"register_class", cs \subseteq (Gprs \cup (IF m \in {"mov","push","pop"} THEN {"sreg"} ELSE {}) \cup (IF m = "mov" THEN {"cr","dr"} ELSE {}))>>,
+          <<"memory_size", MemSizes(l.ops) \subseteq {8, 16, 32} \cup (IF m = "bound" THEN {64} ELSE {})>>,
+          <<"size_mismatch", m \in MixedSizeOK \/ Cardinality(AllSizes(l.ops)) <= 1>>,
+          <<"special_register_form", cs \cap {"cr", "dr", "sreg"} # {} => n = 1 \/ (K(1) = "reg" /\ K(2) = "reg" /\ AllSizes(l.ops) \subseteq {IF "sreg" \in cs THEN 16 ELSE 32, 32})>>,
+          <<"shift_count", m \in Shifts \cup {"shld", "shrd"} /\ n >= 2 => IsImm(l.ops[n]) \/ l.ops[n] = Rg("r8", 1)>>,
+          <<"needs_memory", m \in {"lds", "lgdt", "lidt", "bound", "lea"} => K(n) = "mem">>,
+          <<"operand_form", m \in {"imul", "bsf", "bsr", "bt", "bts", "btr", "btc", "cmove", "cmovg", "cmovb", "lea", "movzx", "movsx", "lds", "bound", "xchg", "xadd", "cmpxchg"}
+                   => "r8" \notin (IF m \in {"movzx", "movsx", "xchg", "xadd", "cmpxchg"} THEN {} ELSE cs) /\ (n = 1 \/ K(IF m \in {"bt","bts","btr","btc","xadd","cmpxchg","xchg"} THEN 2 ELSE 1) \in {"reg"} \cup (IF m \in {"bt","bts","btr","btc"} THEN {"imm"} ELSE {}))>>,
+          <<"operand_form", m \in {"movzx", "movsx"} => n = 2 /\ RegIn(l.ops[1], {"r16", "r32"}) /\ K(2) # "imm"
+                              /\ \A z \in AllSizes(SubSeq(l.ops, 2, n)) : z < (IF RegIn(l.ops[1], {"r16"}) THEN 16 ELSE 32)>>,
+          <<"memory_size", m \in {"lds", "lgdt", "lidt"} => MemSizes(l.ops) = {}>>,
+          <<"memory_size", m = "bound" => \A z \in MemSizes(l.ops) : \A y \in RegSizes(l.ops) : z = 2 * y>>,
+          <<"operand_size", m = "bswap" => AllSizes(l.ops) \subseteq {32}>>,
+          <<"size_mismatch", m \in {"shld", "shrd"} /\ n >= 2 => Cardinality(AllSizes(SubSeq(l.ops, 1, 2))) <= 1 /\ 8 \notin AllSizes(SubSeq(l.ops, 1, 2))>>,
+          <<"operand_size", m \in {"sete", "setne", "setb", "setg"} => AllSizes(l.ops) \subseteq {8}>>,
+          <<"operand_size", m \in {"push", "pop", "bswap", "lgdt", "lidt", "int"} => "r8" \notin cs /\ MemSizes(l.ops) \subseteq {16, 32}>> >>)
+        [] f = "x87" -> First(<<
+          <<"register_class", cs \subseteq {"st"} \cup (IF m = "fnstsw" THEN {"r16"} ELSE {})>>,
+          <<"memory_size", MemSizes(l.ops) \subseteq {16, 32, 64, 80}>>,
+          <<"immediate_operand", \A j \in 1..n : K(j) # "imm">>,
+          <<"operand_form", nmem = 1 => n = 1 /\ m \notin X87Pop \cup {"fxch", "fucom", "ffree"}>>,
+          <<"operand_form", n = 2 /\ nmem = 0 /\ cs = {"st"} => (IF m \in X87Pop THEN StN(l.ops[2], {0}) ELSE StN(l.ops[1], {0}) \/ StN(l.ops[2], {0}))>>,
+          <<"needs_memory", m \in {"fild", "fist", "fistp", "fiadd", "fldcw", "fnstcw"} => nmem = 1>> >>)
+        [] f = "simd" -> First(<<
+          <<"register_class", cs \subseteq {"mm", "xmm", "r32"} /\ Cardinality(cs \cap {"mm", "xmm"}) = 1
+                              /\ (m \in XmmOnly => "mm" \notin cs) /\ ("r32" \in cs => m \in {"movd", "cvtsi2sd", "pextrw", "pinsrw"})>>,
+          <<"memory_size", MemSizes(l.ops) \subseteq (IF m \in DOMAIN FixedMem THEN {FixedMem[m]} ELSE IF m = "movsd" THEN {64} ELSE SimdSizes(l.ops))>>,
+          <<"operand_form", (n = 3 => IsImm(l.ops[3])) /\ (n >= 2 => K(2) # "imm")
+                            /\ (m = "movd" => Cardinality({j \in 1..n : RegIn(l.ops[j], {"mm", "xmm"})}) = 1)
+                            /\ (m = "cvtsi2sd" => n = 2 /\ RegIn(l.ops[1], {"xmm"}) /\ (K(2) = "mem" \/ RegIn(l.ops[2], {"r32"})))
+                            /\ (m = "pextrw" => n >= 2 /\ RegIn(l.ops[1], {"r32"}) /\ K(2) = "reg")
+                            /\ (m = "pinsrw" => n >= 2 /\ RegIn(l.ops[1], {"mm", "xmm"}) /\ (K(2) = "mem" \/ RegIn(l.ops[2], {"r32"})))>> >>)
+        [] OTHER -> First(<< <<"register_class", cs \subseteq {"r32"}>>, <<"memory_size", MemSizes(l.ops) \subseteq {32}>> >>)
+       \* an out-of-range immediate is the last reason: such a line is otherwise well-formed, and what C02 asks about it
+       \* (the value must not be truncated) is judged per value, not as an invalid line
+       why == IF general # "" THEN general ELSE IF byfam # "" THEN byfam ELSE IF ~ImmOK(m, l.ops) THEN "immediate_range" ELSE ""
+   IN IF why = "" THEN "" ELSE f \o ":" \o why
+Plausible(l) == PlausWhy(l) = ""
 \* ---------------------------------------------------------------- state machine
 Init == /\ \/ /\ ins \in {Line(m, <<>>) : m \in Mnems} /\ grow = TRUE /\ src = "core"
            \/ /\ ins \in MemSweep /\ grow = FALSE /\ src = "mem"
            \/ /\ ins \in ImmSweep /\ grow = FALSE /\ src = "imm"
-        /\ plaus = Plausible(ins)
+        /\ plaus = PlausWhy(ins)
 MaxLen(m) == IF MaxAr(m) >= 3 THEN 3 ELSE MaxAr(m) + 1
 AddOperand == /\ grow /\ Len(ins.ops) < MaxLen(ins.mn)
               /\ (Len(ins.ops) >= MaxAr(ins.mn) => \A j \in 1..Len(ins.ops) : ins.ops[j] \in Lite)
               /\ \E o \in Reps(ins.mn, Len(ins.ops) + 1) : ins' = [ins EXCEPT !.ops = Append(@, o)]
-              /\ plaus' = Plausible(ins')
+              /\ plaus' = PlausWhy(ins')
               /\ UNCHANGED <<grow, src>>
 Next == AddOperand
 Spec == Init /\ [][Next]_vars
